@@ -69,6 +69,7 @@ typedef struct {
         RLE_RUN,  /* buffer up to the current position is a run */
         RLE_MIX   /* buffer up to the current position is a mix */
     } rle_state;  /* state of the buffer storage */
+    int encoding; /* whether the buffer holds bytes the encoder has not written out yet */
 } comp_coder_rle_info_t;
 
 #ifdef __cplusplus
